@@ -59,7 +59,7 @@ def scenario(rng, sid, tier, force_total=None):
         total = max(total, 5 * min(fcaps) + rng.choice([0, 1, mtu // 2]))
     chunk = rng.choice([1, 100, 1000, mtu, mtu + mtu // 2, 7000, 65536, 1000000])
     # keep the number of segments (and events) of one scenario bounded
-    maxseg = 400 if tier == "quick" else 2500
+    maxseg = 400 if tier == "quick" else 1500
     if total / max(1, min(chunk, mtu)) > maxseg: chunk = max(chunk, total // maxseg + 1)
     if total / max(1, min(chunk, mtu)) > maxseg: total = maxseg * min(chunk, mtu)
     cap_r = rng.choice([1, 100, 1475, 4096, 65536])
